@@ -36,7 +36,8 @@ PROBES = ["seek_at_loop_boundary", "seek_after_exhaustion", "relative_padding_se
           "indefinite_double_seek_before_render", "out_of_range_seek_rejected",
           "op_on_closed_iterator", "terminal_resized_before_relative_padding",
           "loops_completed_without_seek", "from_render_data_constructor",
-          "render_data_used_by_an_earlier_iterator", "render_of_next_frame_failed"]
+          "render_data_used_by_an_earlier_iterator", "render_of_next_frame_failed",
+          "postponed_frame_count"]
 COMPONENTS = {
     "real": ["term_image.render.RenderIterator", "Renderable._init_render_/_get_render_data_",
              "RenderArgs/RenderData", "padding.*"],
@@ -188,9 +189,13 @@ def run(ch, ctx, fault=None):
         pm = gen_padmodel(ch, (cols, rows))
         char0 = ch.pick("char", "#@")
         via_data = ch.bool("via_data", 0.3)
+        # (for some the frame count is POSTPONED: worked out when first asked for)
+        postponed = ch.bool("postponed_frame_count", 0.25)
+        if postponed:
+            ctx.probe("postponed_frame_count")
         r = SimR(R.FrameCount.INDEFINITE if indefinite else n,
                  R.FrameDuration.DYNAMIC if dynamic else dur0,
-                 ti.geometry.Size(*size), stream_len=stream_len)
+                 ti.geometry.Size(*size), stream_len=stream_len, postponed=postponed)
         rtell = 0
         if not indefinite and ch.bool("preseek", 0.3):
             rtell = ch.int("rtell", 0, n - 1)
